@@ -40,7 +40,8 @@ def gen_case(rng):
         "ignore_rg": rng.random() < 0.08,
         # --merge-reads renames the reads and drops their sample id (`Read("read%d")`): it only works for the sample with
         # numeric id 0 (observation in notes/C03.md); it is outside the modelled path and only exercised for one sample
-        "merge_reads": layout == "single" and rng.random() < 0.15,
+        # (F85, fixes/F85.patch; C03_MERGE_ALL=1 exercises it for every layout, e.g. against a patched clone)
+        "merge_reads": (layout == "single" or bool(os.environ.get("C03_MERGE_ALL"))) and rng.random() < 0.15,
         "phased_vcf_input": rng.random() < 0.12,
         "dup_names": rng.random() < 0.08,
         "no_reference": rng.random() < 0.3,
